@@ -151,7 +151,7 @@ pub struct HistKnobs {
 
 impl HistKnobs {
     pub fn for_focus(focus: Focus) -> Self {
-        Self { focus, max_ops: 24, min_ops: 1, update_heavy: false, long_thread_texts: false, max_clients: 4, min_clients: 1, model: ModelKnobs::default(), max_text: 140_000 }
+        Self { focus, max_ops: 24, min_ops: 1, update_heavy: false, long_thread_texts: false, max_clients: 4, min_clients: 1, model: ModelKnobs::default(), max_text: 1_200_000 }
     }
     pub fn miri() -> Self {
         Self {
